@@ -245,3 +245,8 @@ def check_config(cfg, w, rep):
     sub = Report("C03")
     c03.check_config(cfg, w, sub)
     _import(cfg, rep, sub, FROM_C03, "e")
+    # ... and it replaces whatever sits at the address, so that all keys of equal data resolve to an intact copy
+    from . import c02
+    sub = Report("C02")
+    c02.check_config(cfg, w, sub)
+    _import(cfg, rep, sub, ("d-replacing-rename",), "e")
